@@ -424,6 +424,10 @@ func (Engine) Run(t *testing.T, job *simkit.Job, rng *simkit.RNG, idx int64, c *
 			// only the (small) LOG family, whole in every worker
 			all, n = enumerateLog(), idx
 		}
+		if job.Property == PropertyCache {
+			// only the (small) certificate-cache family, whole in every worker
+			all, n = enumerateCache(), idx
+		}
 		if n < 0 || n >= int64(len(all)) {
 			return &simkit.Outcome{Done: true}
 		}
@@ -477,6 +481,10 @@ func clipTail(s string, n int) string {
 func execute(ev *environment, cs *caseSpec, o *simkit.Outcome) {
 	if expect(cs).kind == expNormal && isLogExit(cs.exitHow()) {
 		executeLog(ev, cs, o)
+		return
+	}
+	if expect(cs).kind == expNormal && isCacheExit(cs.exitHow()) {
+		executeCache(ev, cs, o)
 		return
 	}
 	reps := 1
